@@ -456,6 +456,8 @@ func genExtracted(b *strings.Builder, root, authp, httpio *pkg) {
 		w("Definition effects_%s : list string := %s.", f[1], strList(effectSkeleton(root, f[0], f[1])))
 	}
 	w("Definition effects_auth_ServeHTTP : list string := %s.", strList(effectSkeleton(authp, "Handler", "ServeHTTP")))
+	w("(* the HTTP client gives every request its own copy of the header object the application passed in *)")
+	w("Definition http_header_assignment : list string := %s.", strList(assignsIn(root, "httpClient", []string{"hreq.Header"})))
 	w("(* channels of the requester side and their capacities: the hand-over channel is unbuffered (a request handed over is in the loop's hands), the response channel of a request holds one response (nobody ever blocks sending to it) *)")
 	w("Definition requester_chan_makes : list string := %s.", strList(chanMakes(root, "setupRequestChan", "sendRequest")))
 	w("(* every write of a control frame with its deadline, and every place a write deadline is set on the connection *)")
